@@ -33,7 +33,12 @@ impl<'a> Iterator for MessageReceiver<'a> {
                 | RtpsSubmessageReadKind::Gap(_)
                 | RtpsSubmessageReadKind::Heartbeat(_)
                 | RtpsSubmessageReadKind::HeartbeatFrag(_)
-                | RtpsSubmessageReadKind::NackFrag(_) => return Some(submessage),
+                | RtpsSubmessageReadKind::NackFrag(_) => {
+                    // Invalid submessages are skipped (RTPS 8.3.7)
+                    if has_valid_sequence_numbers(submessage) {
+                        return Some(submessage);
+                    }
+                }
 
                 RtpsSubmessageReadKind::InfoDestination(m) => {
                     self.dest_guid_prefix = m.guid_prefix();
@@ -58,6 +63,26 @@ impl<'a> Iterator for MessageReceiver<'a> {
             }
         }
         None
+    }
+}
+
+/// The sequence numbers a writer can use start at 1 (RTPS 8.3.5.4). The upper limit keeps the +1 / -1 / +numBits
+/// arithmetic of the reader and writer state machines away from the ends of the 64 bit range, where a forged
+/// submessage would otherwise overflow it
+fn has_valid_sequence_numbers(submessage: &RtpsSubmessageReadKind) -> bool {
+    const LAST: i64 = i64::MAX - 0xffff;
+    let is_valid = |sn: i64| (1..=LAST).contains(&sn);
+    match submessage {
+        RtpsSubmessageReadKind::Data(m) => is_valid(m.writer_sn()),
+        RtpsSubmessageReadKind::DataFrag(m) => is_valid(m.writer_sn()),
+        RtpsSubmessageReadKind::NackFrag(m) => is_valid(m.writer_sn()),
+        RtpsSubmessageReadKind::Gap(m) => is_valid(m.gap_start()) && is_valid(m.gap_list().base()),
+        RtpsSubmessageReadKind::AckNack(m) => is_valid(m.reader_sn_state().base()),
+        // (an empty history is announced with lastSN = firstSN - 1)
+        RtpsSubmessageReadKind::Heartbeat(m) => {
+            is_valid(m.first_sn()) && m.last_sn() <= LAST && m.last_sn() >= m.first_sn() - 1
+        }
+        _ => true,
     }
 }
 
